@@ -49,6 +49,10 @@ def cond_tree(c):
             # the INP format knows tank LEVELS only: a head (pressure) condition on a tank is the level condition it implies
             d["attr"] = S("level")
             thr = thr - (c._source_obj.elevation if c._source_attr == "head" else 0.0)
+        if getattr(c._source_obj, "node_type", "") == "Junction" and c._source_attr == "head":
+            # ... and junction PRESSURES only: a head condition on a junction is the pressure condition it implies
+            d["attr"] = S("pressure")
+            thr = thr - c._source_obj.elevation
     d["thr"] = N(thr)
     if hasattr(c, "_repeat"):
         d["rep"] = S(bool(c._repeat))
@@ -143,7 +147,7 @@ def project(wn, version):
             cd = c.condition
             thr = getattr(cd, "_threshold", 0.0)
             src = getattr(cd, "_source_obj", None)
-            if src is not None and getattr(src, "node_type", "") == "Tank" and cd._source_attr == "head":
+            if src is not None and getattr(src, "node_type", "") in ("Tank", "Junction") and cd._source_attr == "head":
                 thr -= src.elevation
             a = c._then_actions[0]
             ctl.append((json.dumps([type(cd).__name__, getattr(src, "name", ""), str(getattr(cd, "_relation", "")), round(float(thr), 2),
@@ -235,6 +239,10 @@ def decorate(w, wn, s, rnd):
     if tanks and pipes and rnd.random() < 0.5:        # a simple control on the HEAD of a tank
         t = rnd.choice(tanks)
         wn.add_control("chead", C.Control(C.ValueCondition(wn.get_node(t["name"]), "head", ">", t["elev"] + t["maxl"] - 1.0),
+                                          C.ControlAction(wn.get_link(rnd.choice(pipes)), "status", w.network.LinkStatus.Closed)))
+    if js and pipes and rnd.random() < 0.3:           # ... and on the HEAD of a junction ([CONTROLS] knows its pressure only)
+        jn = rnd.choice([n for n in s["nodes"] if n["type"] == "J"])
+        wn.add_control("jhead", C.Control(C.ValueCondition(wn.get_node(jn["name"]), "head", "<", jn["elev"] + 17.5),
                                           C.ControlAction(wn.get_link(rnd.choice(pipes)), "status", w.network.LinkStatus.Closed)))
     for n in s["nodes"]:
         if n["type"] == "J" and len(n["dem"]) == 1 and rnd.random() < 0.4:
